@@ -116,7 +116,9 @@ pub fn cells_from_str(s: &str) -> Vec<CellT> {
 pub struct WalkStats { pub n_cells: usize, pub deep_size: usize, pub flat_checked: bool, pub prefix_checked: bool, pub mixed_flags: bool, pub mixed_depths: bool }
 
 /// C09 invariant walker. Err(description) on the first broken invariant.
-pub fn walk(b: &BMOC, flat_limit: usize) -> Result<WalkStats, String> {
+pub fn walk(b: &BMOC, flat_limit: usize) -> Result<WalkStats, String> { walk_opt(b, flat_limit, true) }
+/// `lazy`: also check the lazy flattened views of BMOCs too large to flatten (prefixes, per coarse entry): C09's business, costly
+pub fn walk_opt(b: &BMOC, flat_limit: usize, lazy: bool) -> Result<WalkStats, String> {
   let dm = b.get_depth_max();
   if dm > 29 { return Err(format!("depth_max {} > 29", dm)); }
   let mut st = WalkStats::default();
@@ -189,7 +191,7 @@ pub fn walk(b: &BMOC, flat_limit: usize) -> Result<WalkStats, String> {
     let mut k = 0;
     for r in rg.iter() { for x in r.clone() { if k >= flat.len() || flat[k].0 != x { return Err("expansion of to_ranges differs from the flat view".into()); } k += 1; } }
     if k != flat.len() { return Err("expansion of to_ranges shorter than the flat view".into()); }
-  } else {
+  } else if lazy {
     // too many deepest cells to flatten: the lazy views are checked on a prefix, and on small BMOCs rebuilt from single coarse entries
     // (+ their follower) so that the hand-over from one entry to the next is observed for every delta depth that can be walked
     st.prefix_checked = true;
@@ -237,4 +239,37 @@ pub fn walk_or_report(ctx: &mut Ctx, b: &BMOC, producer: &str, case: &Case, is_c
       None
     }
   }
+}
+
+// ---------------------------------------------------------------------------------------------
+// sparse (interval) model: a BMOC as a sorted list of (start, end, state) over the deepest cells of a common depth, for depths that
+// cannot be flattened (12 * 4^29 cells). state 1 = partial, 2 = full; absent ranges are not listed.
+// ---------------------------------------------------------------------------------------------
+pub type Iv = (u64, u64, u8);
+pub fn to_intervals(dm: u8, cells: &[CellT]) -> Vec<Iv> {
+  let mut v: Vec<Iv> = Vec::with_capacity(cells.len());
+  for &(d, h, f) in cells { let s = 2 * (dm - d) as u32; let (a, e, st) = (h << s, (h + 1) << s, if f { 2 } else { 1 });
+    match v.last_mut() { Some(l) if l.1 == a && l.2 == st => l.1 = e, _ => v.push((a, e, st)) } }
+  v
+}
+/// pointwise combination of two interval maps over [0, n)
+pub fn combine_intervals(n: u64, a: &[Iv], b: &[Iv], f: &dyn Fn(u8, u8) -> u8) -> Vec<Iv> {
+  let mut cuts: Vec<u64> = vec![0, n];
+  for x in a.iter().chain(b.iter()) { cuts.push(x.0); cuts.push(x.1); }
+  cuts.sort(); cuts.dedup();
+  let state_at = |v: &[Iv], x: u64| -> u8 { match v.binary_search_by(|iv| if iv.1 <= x { std::cmp::Ordering::Less } else if iv.0 > x { std::cmp::Ordering::Greater } else { std::cmp::Ordering::Equal }) { Ok(i) => v[i].2, Err(_) => 0 } };
+  let mut out: Vec<Iv> = Vec::new();
+  for w in cuts.windows(2) { let st = f(state_at(a, w[0]), state_at(b, w[0])); if st == 0 { continue; }
+    match out.last_mut() { Some(l) if l.1 == w[0] && l.2 == st => l.1 = w[1], _ => out.push((w[0], w[1], st)) } }
+  out
+}
+/// canonical packed MOC (all cells full) of a set of intervals over the deepest cells of depth dm: largest aligned cells
+pub fn canonical_from_intervals(dm: u8, iv: &[Iv]) -> Vec<CellT> {
+  let mut out = Vec::new();
+  for &(mut a, e, _) in iv { while a < e {
+    // largest k such that a is aligned on 4^k and a + 4^k <= e
+    let mut k = 0u32; while k < dm as u32 && a % (1u64 << (2 * (k + 1))) == 0 && a + (1u64 << (2 * (k + 1))) <= e { k += 1; }
+    out.push((dm - k as u8, a >> (2 * k), true)); a += 1u64 << (2 * k);
+  } }
+  out
 }
